@@ -25,6 +25,21 @@ CHECKS = {
              text="TLC validates MalformedFailsCleanly / ErrCode / OutParamUnchanged / FailedReallocKeepsOld for (entry point x argument class) tuples around "
                   "SIZE_MAX, PTRDIFF_MAX, count*size overflow, padding and page rounding, bad alignments, and WellFormedSucceeds for all moderate requests; "
                   "contents of all live blocks and the heap walk are re-validated after failing calls (no other effect on the heap).", ref="5/C06"),
+ "C07": dict(cat="fault_enumeration", tech="TLA+ MiOs + MiApi: OS shim refuses the k-th OS call (single / persistent / per call kind) for every k of a dry run; TLC trace validation of each faulty execution incl. recovery round",
+             text="For workloads small/large/huge/multi-threaded-with-exit x option settings x rel/debug builds, one execution per OS-call position k (counted in a dry run) with the shim refusing that call "
+                  "(once, or from k on, or per call kind); TLC validates every event: an API call may return NULL only when an OS refusal happened during it, every returned block lies in mapped read/write memory "
+                  "(LiveAccessible), NoOverlap/ContentsKept, no crash event; after recovery the workload repeats with WellFormedSucceeds and the final quiescence point satisfies C11's give-back obligations "
+                  "(ranges whose unmap/purge the plan itself refused are exempt).", ref="5/C07",
+             note="Trusted: TLC; the shim performs the real system call unless the plan refuses it and reports results faithfully; fault positions come from a dry run (a faulty run may diverge after the first refusal)."),
+ "C18": dict(cat="model_checking", tech="TLA+ MiOs purge model on a virtual clock + TLC trace validation of free-phase / ordinary-activity scenarios over the purge option grid",
+             text="TLC tracks per 64 KiB unit whether it is dirty (written through a live block since the last purge/unmap event) and the candidate set of dirty units unused continuously since T0; "
+                  "NeverPurgesWhenDisabled (delay -1), ImmediateWhenZero (delay 0: a unit in use before a call and unused after it has been purged within the call) and TimelyPurge (delay d: after ordinary "
+                  "allocate/free/non-forced-collect activity with the virtual clock advancing past the delay, every candidate unit has received a purge or unmap event) are checked for purge_delay x purge_decommits x "
+                  "arena_purge_mult x {whole pages, whole segments, everything} x arena configurations.", ref="5/C18"),
+ "C19": dict(cat="model_checking", tech="TLC exhaustive enumeration of the (allocating x releasing/resizing/querying entry point) product with program emission (MiOverrideMC); programs executed with standard entry points only under LD_PRELOAD and with the static override object built by /repo's CMake; TLC trace validation (OverrideTrace over MiOverride+MiApi)",
+             text="TLC enumerates the pair matrix of standard C/C++ entry points and emits one program per pair; the programs (no mi_ calls) run with LD_PRELOAD of the freshly built libmimalloc.so and linked with the static override object; "
+                  "TLC validates every event: ServedByMimalloc (every non-NULL result is in the mimalloc heap region), LiveCountDelta (the allocator's own live-block count moves by +1/-1/0), CrossRelease, standard return values, plus the MiApi guards.",
+             ref="5/C19", note="Trusted: TLC; driver measurements (dlsym/weak mi_is_in_heap_region, mi_usable_size, mi_heap_visit_blocks count, patterns); requests < 16 MiB with default options so the region query is meaningful; entry points = what glibc 2.36 offers to newly linked programs (no cfree); single-threaded."),
  "C10": dict(cat="model_checking", tech="TLA+ MiApi heap model + TLC trace validation; heap programs generated by TLC -simulate",
              text="TLC validates DeleteMigrates/DestroyExactlyOwn (via live-set and contents), OwnershipQuery, DefaultFallsBack, SetDefaultReturnsOld "
                   "on native and TLC-generated heap programs; sequential part of C10 (the concurrent part is covered by the MiPage model when built).", ref="5/C10"),
@@ -47,14 +62,11 @@ CHECKS = {
 }
 PENDING = {
  "C02": "not yet covered in this revision (MiPage model + scheduler under construction)",
- "C07": "not yet covered in this revision",
  "C08": "not yet covered in this revision",
  "C09": "not yet covered in this revision",
  "C14": "not yet covered in this revision",
  "C15": "not yet covered in this revision",
  "C17": "not yet covered in this revision",
- "C18": "not yet covered in this revision",
- "C19": "not yet covered in this revision",
  "C20": "not yet covered in this revision",
 }
 
